@@ -81,6 +81,10 @@ COMBOS = [
      "zero-sized type is handed the (less aligned) cached pointer",
      [("src/zst_cache.rs", "        size_of::<T>() == 0 && align_of::<T>() <= MAX_ALIGN\n", "        size_of::<T>() == 0\n"),
       ("src/zst_cache.rs", "            debug_assert!(Gc::as_ptr(self.cached_ptr).align_offset(align_of::<T>()) == 0);\n", "")]),
+    ("C16-reflock-trace-skips-when-borrowed", "R13-08-caller-located-builder-and-lock-panics", "C16", "trace-coverage",
+     "on top of RefLock::trace going through try_borrow: a failed borrow is skipped silently instead of panicking (a "
+     "leaked RefMut hides the contents from the collector)",
+     [("src/lock.rs", "            Err(err) => panic!(\n                \"cannot trace the contents of a `RefLock` that is still mutably borrowed, was a \\\n                 `RefMut` leaked? ({err})\"\n            ),\n", "            Err(_) => {}\n")]),
     ("C07-white-bit-test-misses-white-weak", "R11-04-white-bit-test", "C07", "resurrect-table",
      "on top of the single-bit whiteness test: is_white compares both colour bits with zero, so a WhiteWeak object "
      "is not recognised as dead (resurrect leaves it dead, the barrier does not re-gray for it)",
